@@ -38,6 +38,7 @@ package query
 //@   opt inline=off
 //@   opt precall=off
 //@   callsite somePath same_destination [C23]: arg_target2 == target2 && arg_seen == seen && arg_except == except && arg_graph == graph
+//@   callsite (BuildTarget).Parent the_sources_parent_may_stand_for_the_destination [C23]: arg_recv == target1 && arg_graph == graph
 //@   ensures a_path_starts_at_its_source [C23]: len(result) != 0 ==> result[0] == target1.Label
 
 // ---------------------------------------------------------------------------------------------
